@@ -379,9 +379,13 @@ static std::string run_usage(const std::vector<std::string>& w)
             sink_buf sb;
             std::cout.flush();
             auto* old = std::cout.rdbuf(&sb);
+            std::ios saved(nullptr);
+            saved.copyfmt(std::cout);   // std::cout's own formatting state is restored afterwards
+            apply_fmt(std::cout);
             try { pp->usage(); }
-            catch (...) { std::cout.rdbuf(old); throw; }
+            catch (...) { std::cout.copyfmt(saved); std::cout.rdbuf(old); throw; }
             std::cout.flush();
+            std::cout.copyfmt(saved);
             std::cout.rdbuf(old);
             d = sb.data;
         }
